@@ -1198,6 +1198,52 @@ def generate(repo):
         return f'def cvReaderTrailingCheck : Bool := {"true" if ok else "false"}'
     g.item('codev.trailing', 'prysm/io.py:read_codev_gridint', None, cv_trailing, 'def cvReaderTrailingCheck : Bool := true')
 
+    # ---- Code V: comment lines, title line, header line
+    def cv_preamble():
+        r = get_def(io, 'read_codev_gridint')
+        whiles = [st for st in r.body if isinstance(st, ast.While) and 'startswith' in _unp(st.test)]
+        if len(whiles) != 1:
+            raise Untranslatable('no single comment loop')
+        t = whiles[0].test
+        if not (isinstance(t, ast.Call) and isinstance(t.func, ast.Attribute) and t.func.attr == 'startswith' and len(t.args) == 1
+                and isinstance(t.args[0], ast.Constant) and isinstance(t.args[0].value, str) and len(t.args[0].value) == 1):
+            raise Untranslatable(f'comment test {_unp(t)[:50]}')
+        marker = t.args[0].value
+        recv = t.func.value
+        if isinstance(recv, ast.Name):
+            strip, txt = '', recv.id
+        elif isinstance(recv, ast.Call) and isinstance(recv.func, ast.Attribute) and recv.func.attr == 'lstrip' and isinstance(recv.func.value, ast.Name):
+            txt = recv.func.value.id
+            if not recv.args:
+                strip = ' \t\n\r\x0b\x0c'
+            elif len(recv.args) == 1 and isinstance(recv.args[0], ast.Constant) and isinstance(recv.args[0].value, str):
+                strip = recv.args[0].value
+            else:
+                raise Untranslatable('lstrip argument')
+        else:
+            raise Untranslatable(f'comment test {_unp(t)[:50]}')
+        body = whiles[0].body
+        nl = "'\\n'"
+        finds = [st for st in body if isinstance(st, ast.Assign) and _unp(st.value) == f'{txt}.find({nl})' and isinstance(st.targets[0], ast.Name)]
+        if len(finds) != 1:
+            raise Untranslatable('comment loop does not look for the newline')
+        iname = finds[0].targets[0].id
+        adv = [st for st in body if isinstance(st, ast.Assign) and _unp(st.targets[0]) == txt]
+        raises = any(isinstance(st, ast.If) and _unp(st.test) == f'{iname} < 0' and any(isinstance(x, ast.Raise) for x in st.body) for st in body)
+        loop_ok = len(adv) == 1 and _unp(adv[0].value) == f'{txt}[{iname} + 1:]' and raises and len(body) == 3
+        # after the loop: end = txt.find(nl); raise if < 0; title = txt[:end]; txt = txt[end+1:]; end = txt.find(nl); hdr = txt[:end]; data = txt[end+1:]
+        after = [_unp(st) for st in r.body[r.body.index(whiles[0]) + 1:]]
+        want = [f'end = {txt}.find({nl})', None, f'title = {txt}[:end]', f'{txt} = {txt}[end + 1:]', f'end = {txt}.find({nl})', f'hdr = {txt}[:end]']
+        split_ok = len(after) > 6 and all(w is None or a == w for a, w in zip(after, want)) and after[1].startswith('if end < 0:') and 'raise' in after[1] \
+            and f'main_data = {txt}[end + 1:]' in after and 'params = hdr.split()' in after
+        return (f'def cvCommentStrip : List Nat := [{", ".join(str(ord(ch)) for ch in strip)}]\n'
+                f'def cvCommentMarkerCode : Nat := {ord(marker)}\n'
+                f'def cvCommentLoopOk : Bool := {"true" if loop_ok else "false"}\n'
+                f'def cvTitleHeaderSplit : Bool := {"true" if split_ok else "false"}')
+    g.item('codev.preamble', 'prysm/io.py:read_codev_gridint', None, cv_preamble,
+           'def cvCommentStrip : List Nat := [32, 9]\ndef cvCommentMarkerCode : Nat := 33\ndef cvCommentLoopOk : Bool := true\n'
+           'def cvTitleHeaderSplit : Bool := true')
+
     # ---- Code V: header keywords the writer can emit / the reader understands
     def cv_tokens():
         r = get_def(io, 'read_codev_gridint')
